@@ -36,6 +36,10 @@ THEOREMS = [
     # resize policies
     "IwModel.C12.ensure_reaches_request", "IwModel.C12.ensure_beyond_maxoff_fails", "IwModel.C12.policy_fits",
     "IwModel.C12.resize_sequence", "IwModel.C12.fibo_sequence_reaches",
+    # data listener (dlsnr round)
+    "IwModel.C12.listener_model_agrees", "IwModel.C12.listener_complete", "IwModel.C12.listener_complete_step",
+    "IwModel.C12.listener_events_fit", "IwModel.C12.unreported_store_invisible", "IwModel.C12.listener_holds_flat_array",
+    "IwModel.C12.listener_vs_read",
 ]
 
 PS = 4096
